@@ -382,6 +382,14 @@ func TestC13(t *testing.T) {
 			rec.Count("deployments_of_entrypoint/"+op.Entry, 1)
 			runOne(&deployCase{Topology: topo, Op: op, Store: storeName}, false)
 		}
+		// several instances on ONE node at once: their records are written side by side and all count the same
+		// in-progress marker down
+		for i := 0; i < 2; i++ {
+			one := topo.Nodes[r.Intn(len(topo.Nodes))]
+			op := sim.Op{Kind: "create", App: "app", Entry: "web", Pod: one.Pod, Strategy: "AUTO", Count: 4 + r.Intn(3), Includes: []string{one.Name}, Res: sim.Res{CPU: 0.1, Memory: 1 << 22}}
+			rec.Count("deployments_of_many_instances_on_one_node/"+storeName, 1)
+			runOne(&deployCase{Topology: topo, Op: op, Store: storeName}, false)
+		}
 		op := sim.GenCreate(r, topo)
 		op.App, op.Entry = "app", "web"
 		op.Count = 2 + r.Intn(3)
